@@ -209,3 +209,58 @@ Definition in_box_b (ranges : list (f64 * f64)) (g : list f64) : bool :=
    [0,1).  When sup - min overflows the result is inf (or NaN for u = 0):
    outside the declared interval.  (Repaired: sampled at half scale.) *)
 Definition between_real_pinned (lo hi u : f64) : f64 := F64.add (F64.mul u (F64.sub hi lo)) lo.
+
+(* ------------------------------------------------------------ the remaining public members of i_ga / i_de
+   (i_ga.h, i_de.h, individual.h).  Modelled here: size()/parameters(), empty(), operator[] const (read),
+   operator[] (write through the returned reference), begin()..end() / operator std::vector (the gene list),
+   operator==, inc_age(), i_de::operator=(const std::vector<double> &).
+   NOT here: signature()/hash() (C03), distance() (not part of this property), load/save (C11), graphviz/operator<<
+   (output only), is_valid() (about the signature).
+   A write through operator[] / a non-const iterator / operator= stores whatever the caller passes: keeping the gene
+   inside its interval is the CALLER's duty (ga_set_in_range needs lo <= v < hi; C17_ga_set_can_leave_range). *)
+Definition ga_size (x : iga) : Z := Z.of_nat (length (ga_genome x)).
+Definition ga_empty (x : iga) : bool := ga_size x =? 0.
+
+(* value_type operator[](std::size_t i) const { Expects(i < parameters()); return genome_[i]; } *)
+Definition ga_get (x : iga) (i : nat) : option Z := nth_error (ga_genome x) i.
+
+Fixpoint list_set {A : Type} (l : list A) (i : nat) (v : A) : option (list A) :=
+  match l, i with
+  | [], _ => None
+  | _ :: r, O => Some (v :: r)
+  | y :: r, S k => match list_set r k v with None => None | Some r' => Some (y :: r') end
+  end.
+
+(* x[i] = v  through  value_type &operator[](std::size_t i) *)
+Definition ga_set (x : iga) (i : nat) (v : Z) : option iga :=
+  match list_set (ga_genome x) i v with
+  | None => None
+  | Some g => Some (mk_iga g (ga_age x))
+  end.
+
+(* void inc_age() { ++age_; }   age_ is unsigned (32 bits) *)
+Definition inc_age (age : Z) : Z := (age + 1) mod 4294967296.
+Definition ga_inc_age (x : iga) : iga := mk_iga (ga_genome x) (inc_age (ga_age x)).
+
+Fixpoint list_eqb {A : Type} (eqb : A -> A -> bool) (l r : list A) : bool :=
+  match l, r with
+  | [], [] => true
+  | a :: l', b :: r' => eqb a b && list_eqb eqb l' r'
+  | _, _ => false
+  end.
+(* bool i_ga::operator==(const i_ga &x) const: genome_ == x.genome_ *)
+Definition ga_eqb (x y : iga) : bool := list_eqb Z.eqb (ga_genome x) (ga_genome y).
+
+Definition de_size (x : ide) : Z := Z.of_nat (length (de_genome x)).
+Definition de_get (x : ide) (i : nat) : option f64 := nth_error (de_genome x) i.
+Definition de_set (x : ide) (i : nat) (v : f64) : option ide :=
+  match list_set (de_genome x) i v with
+  | None => None
+  | Some g => Some (mk_ide g (de_age x))
+  end.
+Definition de_inc_age (x : ide) : ide := mk_ide (de_genome x) (inc_age (de_age x)).
+(* i_de &operator=(const std::vector<double> &v) { Expects(v.size() == parameters()); genome_ = v; return *this; } *)
+Definition de_assign (x : ide) (v : list f64) : option ide :=
+  if Nat.eqb (length v) (length (de_genome x)) then Some (mk_ide v (de_age x)) else None.
+(* bool operator==(const i_de &, const i_de &): std::equal over the genes with double == (so -0 == +0, NaN != NaN) *)
+Definition de_eqb (x y : ide) : bool := list_eqb F64.eqb (de_genome x) (de_genome y).
